@@ -98,4 +98,10 @@ CHECKS = {
   "text": "36 cases per quick run (every claimed model in every run, 2-4 cases each; 400 per model thorough), each with 2-3 directions for first and second derivatives. Exploration level; the oracle carries its own error estimate.",
   "note": "Trusted: finite differences of fcn({}) with error estimate |g(h/2)-g(h)|; small structures (2 chains) keep the eager cost bounded. Known findings (pinned by construction, one per cfit model): grad_hessp of the cfit family returns default-likelihood derivatives.",
  },
+ "C08": {
+  "engine": "hypothesis-stateful",
+  "technique": "stateful property-based testing: Hypothesis-generated fit histories (constraint set, then fit(method,maxiter) / perturb / save-load steps) on generated toy models; after every returned fit the invariants are checked against the live model and an independently rebuilt FCN; every minimiser name the library accepts is exercised in every run",
+  "text": "28 histories per quick run (one per minimiser name plus 16 mixed histories), 1300 thorough. Exploration level; convergence quality is not asserted.",
+  "note": "Trusted: the harness's bookkeeping of configured constraints (fix_var, var_equal, var_range, gauss_constr), NLL from a freshly built FCN on the same samples. Hessian-based minimisers get 30/60-event samples (no maxiter option exists for them).",
+ },
 }
